@@ -13,3 +13,5 @@ import BddVerif.Props.C20
 #print axioms B.Props.C20.dot_text_eval
 #print axioms B.Props.C20.dot_eval_by_index
 #print axioms B.Props.C20.dot_eval_den
+#print axioms B.Props.C20.dot_write_chunking_irrelevant
+#print axioms B.Props.C20.dot_write_faithful
